@@ -47,11 +47,12 @@ def cr_case(draw, tier="quick"):
     V = draw(st.sampled_from(SPECIAL_V[d])) if (special and d > 1) else draw(C.hpoint(d, 6))
     return {"form": form, "d": d, "A": draw(C.hpoint(d, 6)), "B": draw(C.hpoint(d, 6)), "V": V, "W": draw(C.hpoint(d, 6)), "pars": pars,
             "m": draw(Z.params(9)), "order": draw(st.sampled_from(sorted(ORDERS))), "transform": draw(st.booleans()),
-            "coll": draw(st.sampled_from([0, 0, 2]))}
+            "coll": draw(st.sampled_from([0, 0, 2])),
+            "ipars": [[draw(st.integers(-2, 2)), draw(st.integers(-2, 2))] for _ in range(4)] if draw(st.sampled_from([False, False, True])) else None}
 
 
 def f2(v):
-    return np.array([float(x) for x in v])
+    return np.array([float(x.re) if isinstance(x, X.CQ) else float(x) for x in v])
 
 
 def build_config(c):
@@ -61,10 +62,17 @@ def build_config(c):
     if X.rank([A, B]) < 2:
         raise Skip("A, B dependent")
     pars = [[Fraction(a), Fraction(b)] for a, b in c["pars"]]
-    if len(pars) != 4 or any(br(pars[i], pars[j]) == 0 for i in range(4) for j in range(i)):
+    ip = c.get("ipars")
+    if ip and form in ("points1", "points2", "points3", "from_point2"):
+        # complex parameters: points of the complex projective line through A and B that are not complex multiples of real points
+        if len(ip) != 4 or any(len(x) != 2 for x in ip):
+            raise Skip("malformed")
+        pars = [[X.CQ(a, x[0]), X.CQ(b, x[1])] for (a, b), x in zip(pars, ip)]
+    if len(pars) != 4 or any(br(pars[i], pars[j]) == 0 for i in range(4) for j in range(i)) or any(not (a or b) for a, b in pars):
         raise Skip("parameters not pairwise different")
     pts = [[s * a + t * b for a, b in zip(A, B)] for s, t in pars]
-    P = [Point(f2(p)) for p in pts]
+    cplx = any(isinstance(x, X.CQ) and x.im != 0 for p in pts for x in p)
+    P = [Point(C.to_c(p) if cplx else f2(p)) for p in pts]
     if form.startswith("points"):
         return P, {}, pars
     if form in ("lines2", "from_point2"):
@@ -118,7 +126,7 @@ def run_cr(c):
     vals = np.atleast_1d(np.asarray(r)).ravel()
     ck.check(len(vals) == (2 if c["coll"] else 1), site + ":shape", np.shape(r))
     for v in vals:
-        ck.check(C.p1_eq(complex(v), (complex(num), complex(den)), 1e-6), site + ":value", (complex(v), (str(num), str(den)), c["order"]))
+        ck.check(C.p1_eq(complex(v), (X.to_complex(num), X.to_complex(den)), 1e-6), site + ":value", (complex(v), (str(num), str(den)), c["order"]))
     return ck.result()
 
 
@@ -135,6 +143,8 @@ def cr_labels(c):
         out.append("endpoint-parameter")
     if c["transform"]:
         out.append("transformed")
+    if c.get("ipars") and c["form"] in ("points1", "points2", "points3", "from_point2") and any(x[0] or x[1] for x in c["ipars"]):
+        out.append("complex-parameters")
     return out
 
 
@@ -247,7 +257,7 @@ LAWS = [
     Law("crossratio", lambda tier: cr_case(tier), run_cr, cr_nontrivial, cr_labels, {"quick": 3000, "thorough": 60000},
         "closed-form value for every form (points 1D/2D/3D, concurrent lines 2D/3D, from_point, coaxial planes), argument orders "
         "abcd/badc/cdab/abdc/acbd (the symmetry relations), invariance under a projective map", shard=400,
-        mandatory=("special-vertex", "endpoint-parameter", "transformed", "lines2", "planes3", "points1")),
+        mandatory=("special-vertex", "endpoint-parameter", "transformed", "lines2", "planes3", "points1", "complex-parameters")),
     Law("crossratio_clustered_1d", lambda tier: cluster_case(tier), run_cluster, lambda c: abs(c["N"]) >= 1000, lambda c: [f"N={c['N']}"], {"quick": 400, "thorough": 5000},
         "four integer points N+o_i of P^1 (|N| up to 1e6, exact determinants): value depends on the offsets only", shard=400),
     Law("harmonic_set", lambda tier: hs_case(tier), run_hs, lambda c: True, lambda c: [f"d{c['d']}", "coll" if c["coll"] else "single"],
